@@ -18,14 +18,14 @@
 (*                                                                         *)
 (* Low-level decoder object state `d`:                                     *)
 (*   cin, cout  totals consumed / produced;  failed  sticky failure seen;  *)
-(*   done       Done was returned;  last  last status;  dig  Adler pair of *)
+(*   done       Done was returned;  fin  the stream finished (Done or checksum verdict);  last  last status;  dig  Adler pair of *)
 (*   all output (schedule-equivalence digest);  wrap  ring mode            *)
 (***************************************************************************)
 EXTENDS Integers, Sequences
 
 Iff(name, c) == IF c THEN <<>> ELSE <<name>>
 
-DInit == [cin |-> 0, cout |-> 0, failed |-> FALSE, done |-> FALSE, last |-> "None",
+DInit == [cin |-> 0, cout |-> 0, failed |-> FALSE, done |-> FALSE, fin |-> FALSE, last |-> "None",
           dig |-> <<1, 0>>, ncalls |-> 0, stuck |-> 0]
 
 IsPow2OrZero(n) == n = 0 \/ \E j \in 0..30 : n = 2 ^ j
@@ -54,8 +54,16 @@ DecRules(d, e, k, okdata) ==
          e.status = "NeedsMoreInput" => e.consumed = e.in_len /\ e.more)
   \o Iff("dec_cannot_make_progress_only_without_more_flag",
          e.status = "FailedCannotMakeProgress" => ~e.more)
-  \o Iff("dec_failure_is_sticky", d.failed /\ ~bad => StickyFail(e.status))
-  \o Iff("dec_done_is_stable", d.done /\ ~d.failed /\ ~bad => e.status = "Done" /\ e.written = 0 /\ e.consumed = 0)
+  \* (a checksum mismatch is a verdict on a finished stream: it stays finished, and the
+  \* verdict is repeated for as long as the caller keeps the same checksum flags)
+  \o Iff("dec_failure_is_sticky", d.failed /\ ~bad =>
+            IF d.fin
+              THEN e.status \in {"Adler32Mismatch", "Done"} /\ e.written = 0 /\ e.consumed = 0
+              ELSE e.status = "Failed")
+  \* (a caller that switches the zlib/checksum flags on after the end can still get a
+  \* checksum verdict; nothing is read or written any more either way)
+  \o Iff("dec_done_is_stable", d.fin /\ ~bad =>
+            e.status \in {"Done", "Adler32Mismatch"} /\ e.written = 0 /\ e.consumed = 0)
   \o Iff("dec_no_success_on_invalid_stream",
          e.status = "Done" /\ k.v \in {"rej", "starved"} =>
             k.v = "rej" /\ k.why = "dist_before_start" /\ e.wrap)
@@ -76,6 +84,7 @@ DecNext(d, e, newdig) ==
   IF e.status = "BadParam" THEN [d EXCEPT !.ncalls = @ + 1]
   ELSE [d EXCEPT !.cin = @ + e.consumed, !.cout = @ + e.written,
                  !.failed = @ \/ StickyFail(e.status), !.done = @ \/ e.status = "Done",
+                 !.fin = @ \/ e.status \in {"Done", "Adler32Mismatch"},
                  !.last = e.status, !.dig = newdig, !.ncalls = @ + 1,
                  !.stuck = IF e.consumed = 0 /\ e.written = 0 THEN @ + 1 ELSE 0]
 
